@@ -28,31 +28,39 @@ Silent == pc \in {"start", "init", "prestart", "sampling", "iterend", "append", 
 TSilent ==
   /\ Silent
   /\ \/ StartEpoch \/ InitialValues \/ PreStart \/ ChunkBegin \/ IterEnd \/ ChunkAppend
-     \/ PreEnd \/ PreTune \/ Finish \/ Return
+     \/ PreEnd \/ PreTune \/ Finish \/ Return \/ ChunkMismatch
   /\ UNCHANGED <<params, tid, l, usedKeys>>
 
 \* --- public API calls ----------------------------------------------------------
 \* the configs the engine was constructed with are fed to the manager first
 TAppend ==
   /\ IsEvent("append") /\ ~Silent
-  /\ Chk("api_call_only_when_idle", pc = "idle" /\ mode = "none")
+  /\ Chk("api_call_only_when_idle", pc \in {"idle", "stuck"} /\ mode = "none")
   /\ LET c == ToCfg(Ev.c) IN
      /\ Chk("append_accepted_iff_valid", Ev.accepted = Accepts(cfgs, c))
      /\ IF Ev.accepted THEN AppendEpoch(c) ELSE AppendEpochRejected(c)
   /\ UNCHANGED <<params, usedKeys>> /\ Step
 
+\* the next epoch's duration is not a multiple of the chunk length (the initial epoch is not sampled in chunks)
+Mismatch(e) == cfgs[e].type # INITIAL /\ cfgs[e].dur % J # 0
 TSampleNext ==
   /\ IsEvent("sample_next") /\ ~Silent
-  /\ Chk("api_call_only_when_idle", pc = "idle" /\ mode = "none")
-  /\ Chk("sample_next_raises_iff_no_epoch_left", Ev.ok = HasMore)
-  /\ IF Ev.ok THEN SampleNextBegin ELSE SampleNextRejected
+  /\ Chk("api_call_only_when_idle", pc \in {"idle", "stuck"} /\ mode = "none")
+  /\ IF pc = "stuck"
+     THEN Chk("engine_unusable_after_a_chunk_mismatch", ~Ev.ok) /\ SampleStuck
+     ELSE /\ Chk("sample_next_raises_iff_no_epoch_left_or_duration_not_a_multiple_of_the_chunk",
+                 Ev.ok = (HasMore /\ ~Mismatch(ptr + 1)))
+          /\ IF HasMore THEN SampleNextBegin ELSE SampleNextRejected
   /\ UNCHANGED <<params, usedKeys>> /\ Step
 
 TSampleAll ==
   /\ IsEvent("sample_all") /\ ~Silent
-  /\ Chk("api_call_only_when_idle", pc = "idle" /\ mode = "none")
-  /\ Chk("sample_all_epochs_does_not_raise", Ev.ok)
-  /\ SampleAllBegin
+  /\ Chk("api_call_only_when_idle", pc \in {"idle", "stuck"} /\ mode = "none")
+  /\ IF pc = "stuck"
+     THEN Chk("engine_unusable_after_a_chunk_mismatch", Ev.ok = ~HasMore) /\ SampleStuck
+     ELSE /\ Chk("sample_all_epochs_does_not_raise",
+                 Ev.ok = (\A e \in (ptr + 1)..Len(cfgs) : ~Mismatch(e)))
+          /\ SampleAllBegin
   /\ UNCHANGED <<params, usedKeys>> /\ Step
 
 \* --- kernel calls --------------------------------------------------------------
@@ -128,12 +136,14 @@ PostChain(e) == IF e > Len(chains) THEN <<>>
 
 \* SamplingResults.get_tuning_times: one entry per completed adaptation epoch, the global time at its end
 RECURSIVE TuneTimes(_)
-TuneTimes(e) == IF e > Len(chains) THEN <<>>
+\* (an epoch the engine refused to sample - chunk mismatch - was started but never tuned)
+Completed == Len(chains) - (IF pc = "stuck" THEN 1 ELSE 0)
+TuneTimes(e) == IF e > Completed THEN <<>>
                 ELSE (IF IsAdapt(cfgs[e].type) THEN <<SumDur(cfgs, 1, e)>> ELSE <<>>) \o TuneTimes(e + 1)
 
 TResults ==
   /\ IsEvent("results") /\ ~Silent
-  /\ Chk("results_read_when_idle", pc = "idle")
+  /\ Chk("results_read_when_idle", pc \in {"idle", "stuck"})
   /\ Chk("one_stored_chain_per_started_epoch", Ev.nepochs = Len(chains))
   /\ \A e \in 1..Len(chains) :
        LET r == Ev.epochs[e] IN
